@@ -293,7 +293,11 @@ func applyStep(v ad.Matrix, s Step) ad.Matrix {
 // build replays cfg; a panic inside a step is returned as error string (with the index of
 // the failing step)
 func build(cfg Cfg) (w *world, failStep int, perr string) {
-	content := baseContent(cfg)
+	return buildWith(cfg, baseContent(cfg))
+}
+
+// buildWith is build with an explicitly given base content (operand views, operands.go)
+func buildWith(cfg Cfg, content [][]float64) (w *world, failStep int, perr string) {
 	w = &world{cfg: cfg, m: newModel(content, cfg.R, cfg.C)}
 	w.base = matFrom(cfg.Sto, cfg.Typ, content, cfg.R, cfg.C)
 	w.chain = []ad.Matrix{w.base}
@@ -531,19 +535,26 @@ func (a *res) String() string {
 
 // ---- reflection helper for the concrete (capital letter) methods -----------------
 
+// callMiss counts, per method name, the calls that could NOT be made (method missing or an
+// argument of the wrong type): reported as counters so that a vacuous scenario is visible
+var callMiss = map[string]int64{}
+
 func callM(recv any, name string, args ...any) (out []reflect.Value, ok bool) {
 	m := reflect.ValueOf(recv).MethodByName(name)
 	if !m.IsValid() {
+		callMiss[name]++
 		return nil, false
 	}
 	mt := m.Type()
 	if mt.NumIn() != len(args) || mt.IsVariadic() {
+		callMiss[name]++
 		return nil, false
 	}
 	in := make([]reflect.Value, len(args))
 	for i, a := range args {
 		in[i] = reflect.ValueOf(a)
 		if !in[i].IsValid() || !in[i].Type().AssignableTo(mt.In(i)) {
+			callMiss[name]++
 			return nil, false
 		}
 	}
